@@ -37,7 +37,7 @@ def xfn(lib, name, *args):      # bundled extension function; rendered with the 
 
 
 EXT_NS = {"set": "http://exslt.org/sets", "math": "http://exslt.org/math", "exsl": "http://exslt.org/common",
-          "str": "http://exslt.org/strings", "xalan": "http://xml.apache.org/xalan"}
+          "str": "http://exslt.org/strings", "xalan": "http://xml.apache.org/xalan", "dyn": "http://exslt.org/dynamic"}
 
 NONE = {"op": "none"}
 
@@ -206,10 +206,41 @@ def render(e, minprec=0):
 def strip_render_only(e):
     """AST as the spec sees it (rendering hints removed)"""
     if isinstance(e, dict):
-        return {k: strip_render_only(v) for k, v in e.items() if k not in ("abbr", "prefix", "rtext")}
+        return {k: strip_render_only(v) for k, v in e.items() if k not in ("abbr", "prefix", "rtext", "expr")}
     if isinstance(e, list):
         return [strip_render_only(x) for x in e]
     return e
+
+
+def xeval(lib, inner):
+    """dyn:evaluate / xalan:evaluate of the rendered text of `inner` ("evaluated exactly as if it had been literally included in place of
+    the call"): the spec evaluates field expr in the calling context, the processor gets the text as a string literal.  None when the
+    text cannot be written as one literal, or names current() (Xalan documents the context node as the current node there)."""
+    text = render(inner)
+    if "current(" in text or ("'" in text and '"' in text):
+        return None
+    return {"op": "xfn", "lib": lib, "name": "evaluate", "args": [{"op": "str", "v": cps(text)}], "expr": inner}
+
+
+def dyn_table(e, out=None):
+    """the strings handed to dyn:evaluate / xalan:evaluate anywhere in e, with the expression each one spells: [(text, ast)]"""
+    out = [] if out is None else out
+    if isinstance(e, dict):
+        if e.get("op") == "xfn" and e.get("name") == "evaluate" and "expr" in e:
+            if e["expr"] is None:         # a string that is not an expression
+                out.append(("".join(chr(c_) for c_ in e["args"][0]["v"]), None))
+            else:
+                out.append((render(e["expr"]), strip_render_only(e["expr"])))
+        for v in e.values():
+            dyn_table(v, out)
+    elif isinstance(e, list):
+        for x in e:
+            dyn_table(x, out)
+    return out
+
+
+def xeval_bad(lib, text):
+    return {"op": "xfn", "lib": lib, "name": "evaluate", "args": [{"op": "str", "v": cps(text)}], "expr": None}
 
 
 # -------------------------------------------------------------------------------------- generators
@@ -250,6 +281,16 @@ class Gen:
         return t_pi(self.r.choice(self.pis) if self.r.random() < 0.5 else None)
 
     def pred(self, d):
+        return self.maybe_eval(self._pred(d), 0.12)
+
+    def maybe_eval(self, e, p):
+        if self.ext and self.r.random() < p:
+            w = xeval(self.r.choice(["dyn", "xalan"]), e)
+            if w is not None:
+                return w
+        return e
+
+    def _pred(self, d):
         r = self.r.random()
         if r < 0.25:
             return num(self.r.randint(1, 3))
@@ -428,4 +469,4 @@ class Gen:
         return fn("lang", lit(self.r.choice(["en", "EN", "en-US", "de"])))
 
     def any(self, d):
-        return self.r.choice([self.ns, self.ns, self.num_, self.str_, self.bool_])(d)
+        return self.maybe_eval(self.r.choice([self.ns, self.ns, self.num_, self.str_, self.bool_])(d), 0.05)
